@@ -121,7 +121,7 @@ def build(flavour="O2", quiet=True):
             oks = list(ex.map(lambda c: _run(c, log), jobs))
         if not all(oks):
             raise RuntimeError("build failed:\n" + "\n".join(log)[:20000])
-        link = [cxx] + oflags + ["-no-pie", "-o", os.path.join(bdir, "mvh")] + hobjs + objs + ldflags + ["-lrt", "-lpthread", "-ldl", "-lm"]
+        link = [cxx] + oflags + ["-no-pie", "-Wl,-z,now", "-o", os.path.join(bdir, "mvh")] + hobjs + objs + ldflags + ["-lrt", "-lpthread", "-ldl", "-lm"]
         if not _run(link, log):
             raise RuntimeError("link failed:\n" + "\n".join(log)[:20000])
         # wsq_tso: the deque algorithm text compiled as C++ against shadow variables (no hooks needed)
@@ -132,7 +132,7 @@ def build(flavour="O2", quiet=True):
         if not _run(tso_cc, log):
             raise RuntimeError("wsq_tso compile failed:\n" + "\n".join(log)[:20000])
         main_o = os.path.join(bdir, "h_mvh_main.o")
-        link2 = [cxx] + oflags + ["-no-pie", "-o", os.path.join(bdir, "wsq_tso"), main_o, tso_o] + objs + ldflags + ["-lrt", "-lpthread", "-ldl", "-lm"]
+        link2 = [cxx] + oflags + ["-no-pie", "-Wl,-z,now", "-o", os.path.join(bdir, "wsq_tso"), main_o, tso_o] + objs + ldflags + ["-lrt", "-lpthread", "-ldl", "-lm"]
         if not _run(link2, log):
             raise RuntimeError("wsq_tso link failed:\n" + "\n".join(log)[:20000])
         # drsim: DAG Recorder sources (with the clock seam) + the serial simulator of a parallel execution
@@ -151,7 +151,7 @@ def build(flavour="O2", quiet=True):
             oks = list(ex.map(lambda c: _run(c, log), pjobs))
         if not all(oks):
             raise RuntimeError("drsim compile failed:\n" + "\n".join(log)[:20000])
-        link3 = [cxx] + oflags + ["-no-pie", "-o", os.path.join(bdir, "drsim"), main_o] + pobjs + objs + ldflags + ["-lrt", "-lpthread", "-ldl", "-lm"]
+        link3 = [cxx] + oflags + ["-no-pie", "-Wl,-z,now", "-o", os.path.join(bdir, "drsim"), main_o] + pobjs + objs + ldflags + ["-lrt", "-lpthread", "-ldl", "-lm"]
         if not _run(link3, log):
             raise RuntimeError("drsim link failed:\n" + "\n".join(log)[:20000])
         # ptprog: the pthread interpreter linked with the library's own --wrap list against an LD-flavour
@@ -174,7 +174,7 @@ def build(flavour="O2", quiet=True):
             if not all(oks):
                 raise RuntimeError("ptprog compile failed:\n" + "\n".join(log)[:20000])
             simobjs = [os.path.join(bdir, "sim_mvsim.o"), os.path.join(bdir, "sim_mvsim_switch.o"), os.path.join(bdir, "sim_mvsim_tsan.o")]
-            link4 = [cxx] + oflags + ["-no-pie", "-o", os.path.join(bdir, "ptprog"), main_o] + lobjs + simobjs + \
+            link4 = [cxx] + oflags + ["-no-pie", "-Wl,-z,now", "-o", os.path.join(bdir, "ptprog"), main_o] + lobjs + simobjs + \
                     ["@" + os.path.join(REPO, "src", "myth-ld.opts")] + ldflags + ["-lrt", "-lpthread", "-ldl", "-lm"]
             if not _run(link4, log):
                 raise RuntimeError("ptprog link failed:\n" + "\n".join(log)[:20000])
